@@ -10,6 +10,28 @@ import CxVerif.Extracted.KernelsScalar64
 namespace Cx.Props.C15.KernelTieScalar
 open Cx Cx.Impl.Scalar64 Cx.Extracted.KernelsScalar64
 
+/-! the three leaf helpers every other kernel calls (`CALLS` of tools/kernels/scalar64.py binds the call sites to the hand
+  models `lt`/`mul128`/`shr128`; these theorems tie those hand models to the helpers' own source text). The generated
+  `mul128_src` carries the u128 overflow check of `a as u128 * b as u128`: it can never fire for u64 operands. -/
+theorem lt_src_eq_model (a b : Nat) : lt_src a b = some (lt a b) := by
+  rfl
+theorem shr128_src_eq_model (value shift : Nat) : shr128_src value shift = some (shr128 value shift) := by
+  rfl
+theorem mul128_src_eq_model (a b : Nat) (ha : a < 2 ^ 64) (hb : b < 2 ^ 64) : mul128_src a b = some (mul128 a b) := by
+  have h : a * b < 2 ^ 128 := by
+    calc a * b < 2 ^ 64 * 2 ^ 64 := Nat.mul_lt_mul'' ha hb
+      _ = 2 ^ 128 := by decide
+  simp [mul128_src, mul128, ck128, h]
+/-- the hand model of `lt` is the borrow bit, 1 iff a < b, for operands below 2^63 (the limbs are 56-bit; for full u64
+  operands it is NOT: `lt_not_borrow_full_range`) -/
+theorem lt_spec (a b : Nat) (ha : a < 2 ^ 63) (hb : b < 2 ^ 63) : lt a b = if a < b then 1 else 0 := by
+  unfold lt shr64 wsub64
+  rw [Nat.shiftRight_eq_div_pow]
+  split <;> omega
+theorem lt_not_borrow_full_range : lt (2 ^ 64 - 1) 0 = 1 := by decide
+example : lt_src 3 5 = some 1 ∧ lt_src 5 3 = some 0 ∧ shr128_src (2 ^ 100 + 2 ^ 70) 8 = some (2 ^ 62) ∧
+    mul128_src (2 ^ 64 - 1) (2 ^ 64 - 1) = some ((2 ^ 64 - 1) * (2 ^ 64 - 1)) := by decide
+
 theorem lt_order_src_eq_model (v : Scalar) : lt_order_src v = lt_order v := by
   rfl
 theorem reduce256_src_eq_model (r : Scalar) : reduce256_src r = reduce256 r := by
